@@ -32,7 +32,7 @@ func checkC05(e *Env) {
 	decodes := newCounter()
 	collisionsExamined := 0
 
-	K := e.pick(2, 50)
+	K := e.pick(4, 50)
 	stats := e.RunStream(StreamOpts{Drv: drv}, func(emit func(*Item)) {
 		e.entropyCorpus("C05", func(c EntCase) {
 			emit(&Item{Op: encOp(c), Exp: c05exp{c: c, base: -1}})
@@ -151,7 +151,7 @@ func checkC05(e *Env) {
 	e.WriteEvidence("exploration", map[string]any{
 		"evaluations":                     stats.Ops,
 		"distinct_nontrivial":             dist.Len(),
-		"rule":                            "a case is (entropy, language): the C01 corpus plus, for K base entropies per language x size (K=2 quick, 50 thorough; the first base is all-zero), the base and all ENT single-bit flips; each returned sentence is decoded by the independent bit-array decoder over the golden lists and compared with the entropy passed in; a run-wide map (language, sentence) -> entropy detects collisions; all cases are non-trivial; distinct = distinct (entropy, language)",
+		"rule":                            "a case is (entropy, language): the C01 corpus plus, for K base entropies per language x size (K=4 quick, 50 thorough; the first base is all-zero), the base and all ENT single-bit flips; each returned sentence is decoded by the independent bit-array decoder over the golden lists and compared with the entropy passed in; a run-wide map (language, sentence) -> entropy detects collisions; all cases are non-trivial; distinct = distinct (entropy, language)",
 		"samples":                         smp.List(),
 		"decodes_per_language":            decodes.Map(),
 		"flip_groups":                     len(baseSent),
